@@ -84,6 +84,8 @@ def analyse_pair(x, y, mrow, prow, rx, dist):
     paired = bool(classes & {"minus_non_emph", "minus_emph", "plus_non_emph", "plus_emph"})
     if x == y and any_emph:
         return "identical lines carry emphasis", True
+    if float(dist) == 0 and paired and "".join(x.split()) != "".join(y.split()):
+        return ("max-line-distance 0: lines that differ in more than whitespace are styled as a pair"), any_emph
     if not paired:
         if any_emph:
             return "emphasis on lines that are not styled as a pair", True
@@ -413,6 +415,10 @@ def main(tier):
         # k = 4 for the default regex and threshold, left operands sharded
         for i in range(0, len(S4), 40):
             tasks.append(("regex=\\w+,distance=0.6,k=4", {}, REGEXES[0], "0.6", S4[i:i + 40], S4, deadline))
+    # zero-width characters are not whitespace: at distance 0 a line and the same line with a zero-width space /
+    # byte-order mark / right-to-left override are no partners
+    ZW = strings(3, ["a", " ", "\u200b", "\ufeff", "\u202e"])
+    tasks.append(("regex=\\w+,distance=0,zero-width", {}, REGEXES[0], "0", ZW, ZW, deadline))
     res = explore.pmap(run_pairs, tasks)
     res2 = explore.pmap(run_pairing, [("pairing,distance=%s" % d, d, (i, 6), deadline)
                                       for d in DISTANCES for i in range(6)])
